@@ -7,7 +7,8 @@ open Pyemv Pyemv.Gen
 theorem kd_tree_derive (b : Nat) (x y : Bytes) (j : Nat) :
     Gen.kd.derive_emv2000_tree_sk.derive b x y j = treeDerive b x y j := by
   unfold Gen.kd.derive_emv2000_tree_sk.derive treeDerive pyMod
-  simp only [tools_xor, tools_ecb, rep_flatten, zeros, bind, Except.bind, pure, Except.pure]
+  try simp only [bind_pure]      -- `do let v ← e; pure v` is `e` (single-exit rewrites)
+  simp only [tools_xor, tools_ecb, rep_flatten, zeros, bind, Except.bind, pure, Except.pure, except_match_eta]
   by_cases hb : b = 0
   · simp [hb, throw, throwThe, MonadExceptOf.throw]
   · simp only [hb, if_false]
